@@ -6,6 +6,27 @@ import os
 ROOT = os.path.dirname(os.path.dirname(os.path.abspath(__file__)))
 
 CHECKS = {
+    "C05": {
+        "text": "Proof (Coq, closed under the global context): for each provider's upload_file, modelled as a function of the chunk-stream "
+                "events and an ARBITRARY reply oracle (any request may fail) against a server whose checksum is a function of what it "
+                "stored: if the final name's content changed, the call returned success, the name was free, it now holds exactly the "
+                "payload, and the finalisation carried the payload's length and the server-side checksum (Dropbox, Yandex Disk, Google "
+                "Drive); the archiver / gpg / reader / splitter / uploader pipeline, as a transition system, has no stuck non-terminal "
+                "state and every terminal state has gpg reaped and the reader ended (5449 states, closure proved by reflection). Tied to "
+                "the code by running the real `vsb upload` (hook-enabled build, real gpg and threads) against an emulator of the three "
+                "provider APIs: one reference run, then one fault at a chosen request x {4xx/5xx JSON, 5xx text, malformed JSON, missing "
+                "Content-Type, reset before/inside the body, server-side corruption, wrong reported checksum}, and gpg dying / failing / "
+                "absent; after each run the cloud namespace (no final-named object unless it decrypts to the local backup; pre-existing "
+                "object untouched; no direct write under a final name), the error report, attempts for the remaining backups, run time "
+                "and the process table are examined; for Dropbox the outcome (temporary left, final present, success) is compared with the "
+                "extracted upload machine.",
+        "note": "Partial: the emulator is this check's reading of the provider APIs; thread interleavings are those that arise in the "
+                "runs (the LTS theorem covers all interleavings of the model, not of the code); Yandex / Google machines are proved but "
+                "compared with the code only through the property evaluation, not step by step.",
+        "technique": "Coq proof (upload machines under an arbitrary reply oracle; pipeline LTS by reflection) + fault sweep of the real "
+                     "binary against a provider emulator",
+        "design": "7/C05",
+    },
     "C16": {
         "text": "Proof (Coq, closed under the global context): two runs scheduled arbitrarily under non-blocking exclusive-lock "
                 "semantics never hold the lock together, a refused run has issued no storage operation, and the issue order of "
